@@ -109,6 +109,27 @@ func (v *c06Val) yaml() string {
 	return v.S
 }
 
+// json writes the value as JSON text (for fromJSON('...') literals; no single quotes inside).
+func (v *c06Val) json() string {
+	switch v.K {
+	case c06Obj:
+		parts := make([]string, len(v.Kids))
+		for i, k := range v.Kids {
+			parts[i] = `"` + v.Names[i] + `": ` + k.json()
+		}
+		return "{" + strings.Join(parts, ", ") + "}"
+	case c06Arr:
+		parts := make([]string, len(v.Kids))
+		for i, k := range v.Kids {
+			parts[i] = k.json()
+		}
+		return "[" + strings.Join(parts, ", ") + "]"
+	case c06Str:
+		return `"` + v.S + `"`
+	}
+	return v.S
+}
+
 // ty models checkRawYAMLValue (generator guidance only).
 func (v *c06Val) ty() *c06Ty {
 	switch v.K {
@@ -199,10 +220,16 @@ type c06Matrix struct {
 	Inc     []*c06Inc
 	IncExpr string
 	Expr    string
+	// the matrix of the LITERAL workflow is given by one expression of closed object type
+	// ("matrix: ${{ fromJSON('{...}') }}", "matrix: ${{ needs.prep.outputs }}")
+	BaseExpr       string
+	BaseT          *c06Ty // model of checkMatrixExpression's result
+	BaseAllStr     bool   // flat object of strings, no include
+	BaseIncUntyped string // the same expression with an "include" array that is not array<object>
 }
 
 func (m *c06Matrix) clone() *c06Matrix {
-	n := &c06Matrix{IncExpr: m.IncExpr, Expr: m.Expr}
+	n := &c06Matrix{IncExpr: m.IncExpr, Expr: m.Expr, BaseExpr: m.BaseExpr, BaseT: m.BaseT, BaseAllStr: m.BaseAllStr, BaseIncUntyped: m.BaseIncUntyped}
 	for _, r := range m.Rows {
 		nr := &c06Row{Name: r.Name, Expr: r.Expr}
 		for _, v := range r.Vals {
@@ -222,6 +249,9 @@ func (m *c06Matrix) clone() *c06Matrix {
 
 // ty models checkMatrix for literal definitions.
 func (m *c06Matrix) ty() *c06Ty {
+	if m.BaseExpr != "" {
+		return m.BaseT
+	}
 	o := &c06Ty{K: c06Obj}
 	for _, r := range m.Rows {
 		t := r.Vals[0].ty()
@@ -257,6 +287,10 @@ func (m *c06Matrix) ty() *c06Ty {
 func (m *c06Matrix) write(b *YB, indent int) {
 	if m.Expr != "" {
 		b.Lf(indent, "matrix: %s", c06Quote("${{ "+m.Expr+" }}"))
+		return
+	}
+	if m.BaseExpr != "" {
+		b.Lf(indent, "matrix: %s", c06Quote("${{ "+m.BaseExpr+" }}"))
 		return
 	}
 	b.L(indent, "matrix:")
@@ -307,6 +341,7 @@ type c06Input struct {
 type c06Wf struct {
 	Mode     string     // plain | conflict | norows | incconflict (shape of the build matrix)
 	Forced   int        // number of forced uses
+	MapElem  bool       // the build include has the element ${{ needs.prep.outputs }} conflicting with row y
 	Dispatch []c06Input // workflow_dispatch inputs
 	Call     []c06Input // workflow_call inputs (always typed)
 	Twin     string     // name of a workflow_call input that also exists as an untyped workflow_dispatch input
@@ -786,13 +821,19 @@ func c06GenWf(r *Rand) *c06Wf {
 	//             uses dereference through it. Replacing ONE include element (first, middle, last) or
 	//             the whole include section by an expression of unknown / open type must keep them
 	//             accepted: such an element may give any key any type.
-	mode := []string{"plain", "plain", "conflict", "conflict", "norows", "incconflict", "incconflict"}[r.Intn(7)]
+	//  exprmatrix - the whole matrix is ONE expression of closed object type with the used keys
+	//             (fromJSON of a literal, optionally with "include"/"exclude" members; the declared
+	//             outputs of job prep). It is replaced by the same object opened (|| github.event keeps
+	//             the known keys; github.event alone; a {string => string} object for flat string
+	//             objects), by an any-typed expression, and by the literal with an "include" member that
+	//             is not array<object>.
+	mode := []string{"plain", "plain", "conflict", "conflict", "norows", "incconflict", "incconflict", "exprmatrix", "exprmatrix"}[r.Intn(9)]
 	w.Mode = mode
 	rowConflict := mode == "conflict" || mode == "incconflict" && r.Chance(1, 3)
 	w.Build = &c06Matrix{}
 	var forced []string
 	rowNames := c06PickNames(r, r.Range(1, 4))
-	if mode == "norows" {
+	if mode == "norows" || mode == "exprmatrix" {
 		rowNames = nil
 	}
 	for _, n := range rowNames {
@@ -926,6 +967,107 @@ func c06GenWf(r *Rand) *c06Wf {
 				add2 := "filler"
 				inc.Names = append(inc.Names, add2)
 				inc.Vals = append(inc.Vals, &c06Val{K: c06Str, S: r.Pick(c06Words)})
+			}
+		}
+	}
+	if mode == "incconflict" && r.Chance(1, 3) {
+		// an include element of closed all-string object type (the declared outputs of job prep) that
+		// conflicts with a row of objects: matrix.y is any. When prep becomes a call of an unknown
+		// reusable workflow the element is a {string => string} object, which may still define y.
+		yv := &c06Val{K: c06Obj, Names: []string{"name"}, Kids: []*c06Val{{K: c06Str, S: r.Pick(c06Words)}}}
+		hasY := false
+		for _, row := range w.Build.Rows {
+			if row.Name == "y" {
+				hasY = true
+			}
+		}
+		if !hasY {
+			w.Build.Rows = append(w.Build.Rows, &c06Row{Name: "y", Vals: []*c06Val{yv}})
+			el := &c06Inc{TypedExpr: "needs.prep.outputs", TypedT: c06ObjOf(nil, "y", c06TStr, "z", c06TStr)}
+			at := r.Intn(len(w.Build.Inc) + 1)
+			w.Build.Inc = append(w.Build.Inc[:at], append([]*c06Inc{el}, w.Build.Inc[at:]...)...)
+			forced = append(forced, "matrix.y."+r.Pick([]string{"name", "k9"}))
+			w.MapElem = true
+		}
+	}
+	if mode == "exprmatrix" {
+		w.Build.Inc = nil
+		if r.Chance(1, 4) {
+			w.Build.BaseExpr = "needs.prep.outputs"
+			w.Build.BaseT = c06ObjOf(nil, "y", c06TStr, "z", c06TStr)
+			w.Build.BaseAllStr = true
+			forced = append(forced, r.Pick([]string{"matrix.y", "matrix['z']", "matrix.Z"}))
+		} else {
+			obj := &c06Val{K: c06Obj}
+			allStr := r.Chance(1, 3)
+			for _, n := range c06PickNames(r, r.Range(1, 3)) {
+				obj.Names = append(obj.Names, n)
+				if allStr {
+					obj.Kids = append(obj.Kids, &c06Val{K: c06Str, S: r.Pick(c06Words)})
+				} else {
+					obj.Kids = append(obj.Kids, c06GenVal(r, 2))
+				}
+			}
+			t := obj.ty()
+			members := obj.json()
+			members = members[1 : len(members)-1]
+			incOnly := ""
+			var elems []string
+			if !allStr && r.Bool() {
+				// "include": elements add keys / repeat keys with the same shape
+				for k := r.Range(1, 2); k > 0; k-- {
+					el := &c06Val{K: c06Obj}
+					if r.Bool() {
+						i := r.Intn(len(obj.Names))
+						el.Names = append(el.Names, obj.Names[i])
+						el.Kids = append(el.Kids, obj.Kids[i].vary(r))
+					}
+					name := r.Pick([]string{"extra", "exp"})
+					if proto[name] == nil {
+						proto[name] = c06GenVal(r, 1)
+					}
+					el.Names = append(el.Names, name)
+					el.Kids = append(el.Kids, proto[name].vary(r))
+					incOnly = name
+					elems = append(elems, el.json())
+					for i, n := range el.Names {
+						if p := t.prop(n); p != nil {
+							for j := range t.Names {
+								if t.Names[j] == n {
+									t.Props[j] = c06Merge(p, el.Kids[i].ty())
+								}
+							}
+						} else {
+							t.Names = append(t.Names, n)
+							t.Props = append(t.Props, el.Kids[i].ty())
+						}
+					}
+				}
+			}
+			excl := ""
+			if r.Chance(1, 5) {
+				excl = `, "exclude": [{"` + obj.Names[0] + `": ` + obj.Kids[0].json() + `}]`
+			}
+			if len(elems) > 0 {
+				w.Build.BaseExpr = "fromJSON('{" + members + `, "include": [` + strings.Join(elems, ", ") + "]" + excl + "}')"
+				if r.Chance(2, 3) {
+					w.Build.BaseIncUntyped = "fromJSON('{" + members + `, "include": [` + strings.Join(elems, ", ") + ", 1]" + excl + "}')"
+				} else {
+					w.Build.BaseIncUntyped = "fromJSON('{" + members + `, "include": []` + excl + "}')"
+				}
+			} else {
+				w.Build.BaseExpr = "fromJSON('{" + members + excl + "}')"
+			}
+			w.Build.BaseT = t
+			w.Build.BaseAllStr = allStr
+			use := obj.Names[0]
+			if incOnly != "" {
+				use = incOnly
+			}
+			if k := t.prop(use).K; k == c06Str || k == c06Num || k == c06Bool {
+				forced = append(forced, r.Pick([]string{"matrix." + use, "matrix['" + use + "']"}))
+			} else {
+				forced = append(forced, "toJSON(matrix."+use+")")
 			}
 		}
 	}
@@ -1073,6 +1215,21 @@ func c06MatrixVariants(r *Rand, w *c06Wf, pick func(*c06Wf) *c06Matrix, tag stri
 
 func c06Variants(r *Rand, w *c06Wf) []c06Variant {
 	out := c06MatrixVariants(r, w, func(x *c06Wf) *c06Matrix { return x.Build }, "build")
+	if be := w.Build.BaseExpr; be != "" {
+		add := func(kind, expr, what string) {
+			n := w.clone()
+			n.Build.Expr = expr
+			out = append(out, c06Variant{kind, fmt.Sprintf("build matrix ${{ %s }} replaced by ${{ %s }} (%s)", be, expr, what), n})
+		}
+		add("matrix-expression-opened-keeping-keys", be+" || github.event", "the same object left open")
+		add("matrix-expression-to-open-object", "github.event", "open object without known properties")
+		if w.Build.BaseAllStr {
+			add("matrix-expression-to-string-map", r.Pick([]string{"vars", be + " || vars"}), "{string => string}")
+		}
+		if w.Build.BaseIncUntyped != "" {
+			add("matrix-expression-include-untyped", w.Build.BaseIncUntyped, "\"include\" member typed array<any>")
+		}
+	}
 	out = append(out, c06MatrixVariants(r, w, func(x *c06Wf) *c06Matrix { return x.CallM }, "call")...)
 	for i, in := range w.Dispatch {
 		n := w.clone()
@@ -1106,6 +1263,7 @@ func c06Variants(r *Rand, w *c06Wf) []c06Variant {
 }
 
 var c06LintVariantKinds = []string{"row-by-expression", "row-value-by-expression", "include-element-by-expression", "include-element-by-open-object", "include-value-by-expression", "include-by-expression", "matrix-by-expression",
+	"matrix-expression-opened-keeping-keys", "matrix-expression-to-open-object", "matrix-expression-to-string-map", "matrix-expression-include-untyped",
 	"dispatch-input-untyped", "call-input-shadowed-by-untyped-dispatch-input", "popular-action-to-unknown", "popular-action-to-script", "popular-action-to-pathsfilter",
 	"local-action-to-unknown", "job-outputs-to-unresolvable-workflow-call", "local-workflow-call-to-unresolvable"}
 
@@ -1175,6 +1333,9 @@ func c06LintFamilies(r *Run) []*Family {
 			a.Eval(1)
 			a.Count("lint_variants", 1)
 			a.Count("lint_variant:"+v.Kind, 1)
+			if w.MapElem && v.Kind == "job-outputs-to-unresolvable-workflow-call" {
+				a.Count("lint_map_typed_include_element", 1)
+			}
 			if w.Mode == "incconflict" {
 				switch v.Kind {
 				case "include-element-by-expression", "include-element-by-open-object":
@@ -1204,6 +1365,12 @@ func c06LintFamilies(r *Run) []*Family {
 				sig = "C06:lint:unknown-include-element"
 			case "include-by-expression":
 				sig = "C06:lint:unknown-include-section"
+			case "matrix-expression-include-untyped":
+				sig = "C06:lint:matrix-expression-include-of-unknown-type"
+			case "job-outputs-to-unresolvable-workflow-call":
+				if w.MapElem {
+					sig = "C06:lint:map-typed-include-element"
+				}
 			}
 			c.Violation(sig,
 				fmt.Sprintf("workflow is clean with literal definitions but gets a diagnostic after: %s: %s", v.Desc, first.String()),
@@ -1245,7 +1412,10 @@ func c06LintFloors(r *Run) {
 	if r.Counter("lint_incconflict_include_section_replaced") < 40 || r.Counter("lint_incconflict_forced_uses") < 100 {
 		r.Inconclusive("matrix with rows and conflicting include literals: too few include-section replacements / forced uses of a key that is any through include")
 	}
-	for _, m := range []string{"plain", "conflict", "norows", "incconflict"} {
+	if r.Counter("lint_map_typed_include_element") < 30 {
+		r.Inconclusive("fewer than 30 workflows where an include element of closed string-object type conflicting with a row became a {string => string} object")
+	}
+	for _, m := range []string{"plain", "conflict", "norows", "incconflict", "exprmatrix"} {
 		if r.Counter("lint_clean_matrix_shape:"+m) < 50 {
 			r.Inconclusive("fewer than 50 clean literal workflows with matrix shape " + m)
 		}
